@@ -32,6 +32,10 @@ CLAIMED = {
         text="Source level: _calculate_cov_mat_generic is proved equal to (sigma sigma^T) o rho elementwise (both branches, symmetric, correct diagonal); the SimpleGaussianError reference getter/setter, _calculate_cov_mat(_rel), cov_mat and error getters and the error/error_rel setters are proved against the property's src_cov with sigma = relative size x CURRENT reference, under the cache invariant Inv_src, and the reference setter is proved to drop exactly the caches of the opposite relativity. Container level: IndexedContainer._calculate_total_error and XYContainer._calculate_total_error (per-axis routing) are proved by loop invariant to return the sum over ENABLED sources only; get_total_error returns the cached or recomputed sum under Inv_tot; disable_error/enable_error flip exactly the named flag and drop the cache (so disable-then-enable restores the total exactly); every value-changing mutator under contract (IndexedContainer.data setter, HistContainer.fill, HistParametricModel._recalculate, parameters setter of parametric models) is proved to re-point EVERY source and drop the cached total, HistContainer._get_error_reference to bin outstanding entries first, and parametric models to recompute before summing. These per-mutator obligations are what the unbounded histories of the property reduce to.",
         note="Trusted: numpy elementwise models; array references are value snapshots (in-place aliasing of numpy arrays is not modelled); inverse/Cholesky uninterpreted ('consistent' by construction from the proved total); PSD by the Schur product theorem (assumed); user matrices symmetric; floats as reals. Bounded only (native histories, 15k sequences over 8 container kinds): XYContainer x/y/data setters, MatrixGaussianError conversions, add_error/add_matrix_error argument handling, cor_mat/inverse numerics.",
         ref="3 C02"),
+    "C19": dict(
+        text="For each specification call under contract two obligation kinds are proved: 'raises' (the call ends in raise exactly for the malformed inputs named by the property: wrong sizes, any negative entry, correlation outside [0,1], non-unit correlation diagonal, duplicate or unknown source names, unknown parameter names incl. mixed known/unknown keyword sets, missing or non-numeric limits, Poisson data with a negative or non-integer entry, unsorted bin edges, wrong-dimensional histogram heights or fill data, unknown axis names, out-of-range confidence levels) and 'exc.frame' (on every raising path the object's abstract view equals its pre-state; NexusFitter.set_fit_parameter_values raises before any node or minimizer value is touched). Functions: SimpleGaussianError.__init__ and error/error_rel setters, MatrixGaussianError._calculate_cov_mat_from_cor_mat_and_error_array, DataContainerBase._add_error_object, disable_error/enable_error, XYContainer._find_axis_raise, HistContainer.rebin/set_bins/fill, ConfidenceLevel.__init__ and setters, CostFunction_NegLogLikelihood.is_data_compatible, NexusFitter.set_fit_parameter_values, FitBase.add_parameter_constraint/limit_parameter.",
+        note="Trusted: np.allclose as an opaque 'unit diagonal' predicate, value-copy models of np.array/asarray, float() succeeds exactly on numbers, python dict/set semantics on concrete key sets, backend and node assignments recorded as external calls. Open known finding KF-C19-1 (Nexus.add with 'replace' leaves a cycle-closing replacement in place). Bounded only (native, 310 call/variant/age combinations with before/after observable comparison): FitBase.__init__ reserved names, FitBase.data setter rollback, HistContainer.__init__, GaussianMatrixParameterConstraint.__init__, node names, Nexus.add/add_dependency/add_alias.",
+        ref="3 C19"),
 }
 
 NOT_APPLICABLE = {
